@@ -160,6 +160,17 @@ def rule_checksum(ck: Check, repo: Repo) -> None:
         or "file_sha1.update(fp.read())" in src,
         "hexdigest": "return file_sha1.hexdigest()" in src,
     }
+    if not facts["all_chunks"]:
+        # the same loop spelled `while chunk := fp.read(SIZE): file_sha1.update(chunk)` (ends at the empty read as well)
+        _size = r"(?:[1-9]\d*(?: \* file_sha1\.block_size)?|file_sha1\.block_size(?: \* [1-9]\d*)?)"
+        m = re.search(r"while \(?chunk := fp\.read\((\w+|" + _size + r")\)\)?: file_sha1\.update\(chunk\) (?!break)", src + " ")
+        if m:
+            arg = m.group(1)
+            if re.fullmatch(r"[A-Za-z_]\w*", arg):
+                from ..rules import single_assign_value as _sav
+                v = _sav(fn, arg)
+                arg = ast.unparse(v) if v is not None else arg
+            facts["all_chunks"] = re.fullmatch(_size, arg) is not None
     mod = repo.module("reuse._util")
     facts["sha1_is_hashlib"] = mod.imports.get("sha1") == "hashlib.sha1"
     r.instance(q, facts, q)
@@ -204,8 +215,12 @@ def spdx_id_inputs(ck: Check, repo: Repo, r) -> None:
 
         def event(self, text, call, it):
             f = ast.unparse(call.func)
-            if f == "spdx_id.update":
-                return ("id-update", it.text(call.args[0]))
+            if f.endswith(".update") and isinstance(call.func.value, ast.Name) and call.args:
+                # whatever the digest object is called: a local bound to md5()
+                from ..tab import vtext as _vt
+                bound = it.env.get(call.func.value.id)
+                if f == "spdx_id.update" or (bound is not None and _vt(bound) == "md5()"):
+                    return ("id-update", it.text(call.args[0]))
             return None
 
         def loop_policy(self, node, it):
@@ -231,8 +246,17 @@ def spdx_id_inputs(ck: Check, repo: Repo, r) -> None:
         if obj is None or not re.match(r"cls\(f'\./\{project\.relative_from_root\(Path\(path\)\)\}', Path\(path\)", obj):
             r.violation(f"{RP}.FileReport.generate", "report name is not the root-relative path",
                         f"report = {str(obj)[:80]}; FileName / SPDXID uniqueness rests on name = './<path relative to the root>'", repo.loc(g))
-        if not re.fullmatch(r"f'SPDXRef-\{(spdx_id|md5\(\))\.hexdigest\(\)\}'", st.get("spdx_id") or ""):
+        if not re.fullmatch(r"f'SPDXRef-\{(\w+|md5\(\))\.hexdigest\(\)\}'", st.get("spdx_id") or ""):
             r.violation(f"{RP}.FileReport.generate", "SPDXID form", f"{st.get('spdx_id')}", repo.loc(g))
+
+
+def _unflatten(t: str) -> str:
+    """`(f'({x})' for x in [e for ri in INFOS for e in ri.spdx_expressions])` walks the same expressions in the same order as
+    `(f'({e})' for ri in INFOS for e in ri.spdx_expressions)`: one spelling for both."""
+    m = re.search(r"\(f'\(\{(\w+)\}\)' for (\w+) in \[(\w+) for (\w+) in (.+) for (\w+) in (\w+)\.spdx_expressions\]\)", t)
+    if m and m.group(1) == m.group(2) and m.group(3) == m.group(6) and m.group(4) == m.group(7):
+        return t[:m.start()] + f"(f'({{expression}})' for reuse_info in {m.group(5)} for expression in reuse_info.spdx_expressions)" + t[m.end():]
+    return t
 
 
 def rule_concluded(ck: Check, repo: Repo) -> None:
@@ -245,6 +269,9 @@ def rule_concluded(ck: Check, repo: Repo) -> None:
             if text == "add_license_concluded":
                 return "requested"
             if text.startswith("any(reuse_info.spdx_expressions for reuse_info in "):
+                return "has_expr"
+            # the flattened list of all expressions, tested for emptiness, asks the same question
+            if re.fullmatch(r"\[(\w+) for (\w+) in .+ for \1 in \2\.spdx_expressions\]", text):
                 return "has_expr"
             if text.endswith(".do_checksum"):
                 return "@dc"
@@ -272,7 +299,7 @@ def rule_concluded(ck: Check, repo: Repo) -> None:
     for d, leaf, exp in tabulate(g, H(), ref, feasible=lambda v: v.get("@file") is not False and v.get("@dc") is not False):
         if leaf.outcome[0] != "return":
             continue
-        got = [e[1] for e in leaf.events if e[0] == "concluded"]
+        got = [_unflatten(e[1]) for e in leaf.events if e[0] == "concluded"]
         n += 1
         r.instance("cell:" + show_valuation({k: v for k, v in d.items() if not k.startswith("@")}),
                    {"requested": d.get("requested"), "has_expr": d.get("has_expr"), "value": got[-1][:70] if got else None})
